@@ -4,6 +4,7 @@ package c09
 
 import (
 	"fmt"
+	"reflect"
 	"strings"
 	"testing"
 
@@ -88,7 +89,11 @@ func checkVerbs(c *pbt.Case, r *pbt.R) {
 				// flags, width or precision must merely not panic)
 				tn := fmt.Sprintf("%T", e0)
 				tn = strings.TrimPrefix(tn, "*")
-				if strings.Contains(got, "PANIC=") || (format == "%#v" && !strings.Contains(got, tn)) {
+				// (fmt's Go syntax names the type of pointers and structs; a named
+				// string or integer type is printed as a bare literal)
+				k := reflect.ValueOf(e0).Kind()
+				named := k == reflect.Ptr || k == reflect.Struct
+				if strings.Contains(got, "PANIC=") || got == "" || (format == "%#v" && named && !strings.Contains(got, tn)) {
 					r.Failf("%#v is not a Go-syntax dump of the error", "%s via %s: %.300q\nspec %s", format, tg.name, got, c.Spec)
 				}
 				continue
